@@ -113,13 +113,24 @@ def main(argv):
     budget = 180
     if "--thorough-budget" in argv:
         budget = int(argv[argv.index("--thorough-budget") + 1])
+    if sel == "merge":
+        # merge shard result files (paths given after "merge") into results.json and rewrite RESULTS.md
+        rj0 = os.path.join(SEEDED, "results.json")
+        prev = {r["id"]: r for r in json.load(open(rj0))} if os.path.exists(rj0) else {}
+        for pth in argv[1:]:
+            for r in json.load(open(pth)):
+                prev[r["id"]] = r
+        with open(rj0, "w") as f:
+            json.dump([prev[k] for k in sorted(prev, key=lambda d: (d.split("-")[0], int(d.split("-")[1])))], f, indent=1)
+        argv = ["NONE-0"]
+        sel = "NONE-0"
     ids = sorted((d for d in os.listdir(SEEDED) if os.path.isdir(os.path.join(SEEDED, d)) and os.path.exists(os.path.join(SEEDED, d, "patch.diff"))),
                  key=lambda d: (d.split("-")[0], int(d.split("-")[1])))
     if sel != "all":
         ids = [i for i in ids if i == sel or ("-" not in sel and i.startswith(sel + "-"))]
     results = []
     prev = {}
-    rj = os.path.join(SEEDED, "results.json")
+    rj = os.environ.get("VERIF_SEEDED_RESULTS") or os.path.join(SEEDED, "results.json")      # (a shard writes its own file; merged by `seeded merge`)
     if os.path.exists(rj):
         prev = {r["id"]: r for r in json.load(open(rj))}
     for sid in ids:
@@ -132,6 +143,10 @@ def main(argv):
     allr = [prev[k] for k in sorted(prev, key=lambda d: (d.split("-")[0], int(d.split("-")[1])))]
     with open(rj, "w") as f:
         json.dump(allr, f, indent=1)
+    if os.environ.get("VERIF_SEEDED_RESULTS"):
+        missed = [r["id"] for r in results if not r.get("caught_by")]
+        print("seeded (shard): %d run, %d caught, missed: %s" % (len(results), len(results) - len(missed), missed))
+        return 0 if not missed else 1
     with open(os.path.join(SEEDED, "RESULTS.md"), "w") as f:
         f.write("# Seeded changes and the checks that catch them\n\n")
         f.write("Regenerate with `/venv/bin/python /verif/run.py seeded all`. Each change is applied to a scratch copy of the repository only.\n\n")
